@@ -69,6 +69,9 @@ class RequestChannelCommon(StreamHandler, Publisher, Subscription, Disposable, m
                 logger().warning('%s: Received request_n but no publisher provided', self.__class__.__name__)
 
         elif isinstance(frame, PayloadFrame):
+            if self._received_complete:
+                return  # the local subscriber cancelled, was already terminated, or does not exist
+
             if frame.flags_next:
                 self.remote_subscriber.on_next(payload_from_frame(frame),
                                                is_complete=frame.flags_complete)
@@ -78,11 +81,14 @@ class RequestChannelCommon(StreamHandler, Publisher, Subscription, Disposable, m
             if frame.flags_complete:
                 self.mark_completed_and_finish(received=True)
         elif isinstance(frame, ErrorFrame):
+            if self._received_complete:
+                return  # the local subscriber cancelled, was already terminated, or does not exist
+
             self.remote_subscriber.on_error(error_frame_to_exception(frame))
             self.mark_completed_and_finish(received=True)
 
     def dispose(self):
-        if self.subscriber is not None and self.subscriber.subscription is not None:
+        if self.subscriber is not None and self.subscriber.subscription is not None and not self._sent_complete:
             self.subscriber.subscription.cancel()
 
     def _complete_remote_subscriber(self):
@@ -114,6 +120,9 @@ class RequestChannelCommon(StreamHandler, Publisher, Subscription, Disposable, m
             self.mark_completed_and_finish(received=True)
 
     def cancel(self):
+        if self._received_complete:
+            return  # nothing left to cancel
+
         self.send_cancel()
         self.mark_completed_and_finish(received=True)
 
@@ -122,4 +131,7 @@ class RequestChannelCommon(StreamHandler, Publisher, Subscription, Disposable, m
             self._sending_done.set()
 
     def request(self, n: int):
+        if self._received_complete:
+            return  # the peer's direction is already closed
+
         self.send_request_n(n)
